@@ -13,6 +13,9 @@ def answer (line : String) : String :=
     | "ld" => ldLine toks
     | "lds" => ldsLine toks
     | "fab" => fabLine toks
+    | "fabfine" => fabFineLine toks
+    | "fabfault" => fabFaultLine toks
+    | "aoarm" => aoarmLine toks
     | "ao" => aoLine toks
     | "ps" => psLine toks
     | "qspy" => qspyLine toks
